@@ -49,6 +49,13 @@ def build_session(rng, tmp, kind, metric, use_pre, fresh_default):
     fresh = {} if fresh_default else dict(cfg)
     if kind == "unsup" and fresh_default:
         fresh = {}
+    if not use_pre and len(X) % 3 == 2:
+        # the receiving object was constructed on a pre-computed distance file of its own (another metric's): loading replaces
+        # that configuration completely - flag and matrix included
+        s.ctr += 1
+        opath = os.path.join(tmp, "other%d_%d.txt" % (id(s) % 100000, s.ctr))
+        s.call("pre_compute_distance", g.pre_compute_distance, X * 3.0 + 1.0, opath, "manhattan")
+        fresh = {"distance": "manhattan", "pre_computed_distance": opath}
     o2 = s.save_load(o, 1, fresh)
     s.predict(o, 1, Q.copy(), IQ)
     s.predict(o2, 1, Q.copy(), IQ)
